@@ -251,6 +251,8 @@ class CoopLock:
                 f = f.f_back
             succ = f.f_locals.get("successor") if f is not None else None
             me.trace.fine.append("acq %d %s" % (me.widx, me.trace.ids[succ] if succ in me.trace.ids else "?"))
+        if self.name == "failure_lock" and me.trace is not None and me.widx is not None and not s.aborting:
+            me.trace.fine.append("facq %d" % me.widx)
         return True
 
     def release(self):
@@ -262,6 +264,8 @@ class CoopLock:
         self._on_release(me)
         if self.name == "remaining_pred_count_lock" and me.trace is not None and me.widx is not None:
             me.trace.fine.append("unl %d" % me.widx)
+        if self.name == "failure_lock" and me.trace is not None and me.widx is not None:
+            me.trace.fine.append("funl %d" % me.widx)
         self.owner = None
         if self.name:
             me.holding.discard(self.name)
